@@ -16,6 +16,12 @@ pub fn gen_case(t: &mut Tape, tier: Tier) -> Option<Phys> {
 pub fn assert_c07(c: &Phys, ev: &Eval, ctx: &mut Ctx) -> Result<(), Failure> {
     let ne = ev.ne;
     let d = c.g.d as f64;
+    if ev.sym.degenerate_momenta {
+        // the code's tropical polynomials are topological; they coincide with the largest monomials of the actual F
+        // only for generic momenta (no partial sum of external momenta vanishes)
+        ctx.label("excluded:non-generic-momenta");
+        return Ok(());
+    }
     if ev.path.min_gap < 1e-9 {
         ctx.label("excluded:edge-choice-within-1e-9-of-boundary");
         return Ok(());
